@@ -41,6 +41,12 @@ def sortedSnaps : List BcSnap → Bool
   | [_] => true
   | a :: b :: rest => a.snap.le b.snap && sortedSnaps (b :: rest)
 
+/-- snaps strictly ascending: no two changes at the same position -/
+def strictSnaps : List BcSnap → Bool
+  | [] => true
+  | [_] => true
+  | a :: b :: rest => a.snap.lt b.snap && strictSnaps (b :: rest)
+
 /-- The fractional part of the beat distance between consecutive changes is a grid value — the hypothesis
 `TimingMap` forces by storing only millisecond offsets and re-snapping every change on every query (D22). -/
 def gridCompatible (g : List Rat) : List BcSnap → Bool
